@@ -867,6 +867,48 @@ func c10GenRaceQueue(rng *rand.Rand, cfg c10Cfg, udp bool, tier string) c10Scn {
 	return s
 }
 
+// fixed scenarios run first on every run: the witnesses of the refuted statements and of the repaired defects
+func c10Corpus() []c10Scn {
+	mk := func(cfg c10Cfg, udp bool, reqs ...c10Req) c10Scn {
+		s := c10Scn{Cfg: cfg, UDP: udp, Kind: "plain", Conns: 1, Chunks: []int{4096}}
+		for i := range reqs {
+			c10Token++
+			reqs[i].Token = c10Token
+			reqs[i].Servant = "VerifApp.C10Server.TcpObj"
+			c10Encode(&reqs[i])
+		}
+		s.Reqs = reqs
+		return s
+	}
+	boom := B("boom")
+	return []c10Scn{
+		// Props/C10.v C10_error_code_on_wire_refuted (tup_error_witness): TUP, id 7, *tars.Error{78, "boom"}; and the same
+		// failure seen by a TARS and a JSON caller
+		mk(c10Cfg{0, 0}, false,
+			c10Req{Ver: c10VerTup, ID: 7, Func: "act", Kind: c10KTarsErr, Code: 78, Msg: boom},
+			c10Req{Ver: c10VerTars, ID: 8, Func: "act", Kind: c10KTarsErr, Code: 78, Msg: boom},
+			c10Req{Ver: c10VerJSON, ID: 9, Func: "act", Kind: c10KTarsErr, Code: 78, Msg: boom},
+			c10Req{Ver: c10VerTup, ID: 10, Func: "nosuch"}),
+		// repaired ea2b91c: one-way request whose handler overruns the handle timeout; repaired be28e55: the
+		// handle-timeout reply of a TUP / JSON request keeps version and packet type
+		mk(c10Cfg{0, 250}, false,
+			c10Req{Ver: c10VerTup, PType: c10OneWay, ID: 1, Func: "act", SleepMs: 750},
+			c10Req{Ver: c10VerTars, PType: c10OneWay, ID: 2, Func: "act", SleepMs: 750},
+			c10Req{Ver: c10VerTup, PType: 0, ID: 104, Func: "act", SleepMs: 750},
+			c10Req{Ver: c10VerJSON, PType: 5, ID: 105, Func: "act", SleepMs: 750, Msg: B("m")}),
+		mk(c10Cfg{1, 250}, true,
+			c10Req{Ver: c10VerTars, PType: c10OneWay, ID: 3, Func: "act", SleepMs: 750},
+			c10Req{Ver: c10VerJSON, PType: 0, ID: 4, Func: "act", SleepMs: 750, Msg: B("m")}),
+		// TUP: queue timeout behind a blocker (pool 1)
+		mk(c10Cfg{1, 0}, false,
+			c10Req{Ver: c10VerTars, ID: 11, Func: "act", SleepMs: 500, Role: "blocker"},
+			c10Req{Ver: c10VerTup, ID: 12, Func: "act", Timeout: 1, Queued: 500, Role: "queued"},
+			c10Req{Ver: c10VerTars, ID: 13, Func: "act", Timeout: 100, Queued: 500, Role: "queued"},
+			c10Req{Ver: c10VerJSON, ID: 14, Func: "tars_ping", Timeout: 250, Queued: 500, Role: "queued"},
+			c10Req{Ver: c10VerTars, ID: 15, Func: "act", Timeout: 60000, Queued: 500, Role: "queued"}),
+	}
+}
+
 func c10Configs(tier string) []c10Cfg {
 	ht := 250
 	if tier == "thorough" {
@@ -1117,6 +1159,7 @@ func c10Main(a Args) {
 		Corr:     "Rpc.Invoke.c10_check (server_step vs. the replies written by the in-process server)",
 		Rule:     "one case = one scripted connection (4-12 pipelined requests); distinct = distinct (configuration, transport, scenario kind, set of (clause, version, one-way) exercised)",
 		Shard:    40,
+		Corpus:   c10Corpus,
 		Gen:      c10Gen,
 		RunAll:   c10RunAll(a.Out),
 		Coq:      c10Coq,
